@@ -211,6 +211,144 @@ def builder_forms(tree, is_new):
     return n
 
 
+def body_hash(fn):
+    """structure of a function without its own name, its docstring and positions (for following a pure rename)"""
+    import hashlib
+    f = copy.deepcopy(fn)
+    own = f.name
+    f.name = '_'
+    f.body = [s for s in f.body if not (isinstance(s, ast.Expr) and isinstance(s.value, ast.Constant)
+                                        and isinstance(s.value.value, str))] or [ast.Pass()]
+    for n in ast.walk(f):
+        # a recursive call names the function itself
+        if isinstance(n, ast.Name) and n.id == own:
+            n.id = '_'
+        elif isinstance(n, ast.Attribute) and n.attr == own:
+            n.attr = '_'
+    return hashlib.sha1(ast.dump(f).encode()).hexdigest()[:16]
+
+
+def restore_function_names(tree, modname, ref):
+    """a private function or method of the reference tree that is gone, while exactly one new function in the same
+    scope has exactly its body: a rename.  The definition and every mention of the new name in this module are read
+    under the old name (the rules name functions; a pure rename changes nothing they decide)."""
+    done = []
+    bodies = ref.get('bodies') or {}
+    known = ref['functions']
+    scopes = [('', tree.body)] + [(c.name + '.', c.body) for c in tree.body if isinstance(c, ast.ClassDef)]
+    for prefix, body in scopes:
+        here = {n.name: n for n in body if isinstance(n, (ast.FunctionDef, ast.AsyncFunctionDef))}
+        gone = [q_ for q_ in bodies if q_.startswith('%s:%s' % (modname, prefix)) and
+                '.' not in q_[len(modname) + 1 + len(prefix):] and q_[len(modname) + 1 + len(prefix):] not in here]
+        if prefix == '':
+            gone = [q_ for q_ in gone if '.' not in q_.split(':', 1)[1]]
+        new = {name: fn for name, fn in here.items() if '%s:%s%s' % (modname, prefix, name) not in known}
+        if not gone or not new:
+            continue
+        hashes = {name: body_hash(fn) for name, fn in new.items()}
+        for q_ in gone:
+            old = q_.split(':', 1)[1][len(prefix):]
+            if not old.startswith('_') or (old.startswith('__') and old.endswith('__')):
+                continue        # public names and special methods are interface: a vanished one stays a vanished anchor
+            cands = [name for name, h in hashes.items() if h == bodies[q_]]
+            if len(cands) != 1:
+                continue
+            newname = cands[0]
+            mentioned_old = any((isinstance(n, ast.Name) and n.id == old) or (isinstance(n, ast.Attribute) and n.attr == old)
+                                for n in ast.walk(tree))
+            if mentioned_old:
+                continue
+            new[newname].name = old
+            for n in ast.walk(tree):
+                if isinstance(n, ast.Name) and n.id == newname and prefix == '':
+                    n.id = old
+                elif isinstance(n, ast.Attribute) and n.attr == newname:
+                    n.attr = old
+            del hashes[newname]
+            done.append('%s%s (read as %s)' % (prefix, newname, old))
+    return done
+
+
+def _functions_with_quals(tree, modname):
+    out = []
+
+    def visit(body, prefix):
+        for st in body:
+            if isinstance(st, (ast.FunctionDef, ast.AsyncFunctionDef)):
+                out.append(('%s:%s%s' % (modname, prefix, st.name), st))
+            elif isinstance(st, ast.ClassDef):
+                visit(st.body, prefix + st.name + '.')
+            elif isinstance(st, (ast.If, ast.Try)):
+                for fld in ('body', 'orelse', 'finalbody'):
+                    visit(getattr(st, fld, []) or [], prefix)
+                for h in getattr(st, 'handlers', []):
+                    visit(h.body, prefix)
+    visit(tree.body, '')
+    return out
+
+
+def restore_attribute_names(tree, modname, ref):
+    """a private attribute name of the reference tree that is gone from this module while a new private attribute
+    name appeared, and reading the new one as the old one gives every function that mentions it exactly the body it
+    had: a rename of the attribute.  It is read under the old name."""
+    done = []
+    ref_attrs = (ref.get('attrs') or {}).get(modname)
+    bodies = ref.get('bodies') or {}
+    if ref_attrs is None:
+        return done
+    cur = {n.attr for n in ast.walk(tree) if isinstance(n, ast.Attribute)}
+    gone = sorted(a for a in set(ref_attrs) - cur if a.startswith('_') and not a.endswith('__'))
+    new = sorted(b for b in cur - set(ref_attrs) if b.startswith('_') and not b.endswith('__'))
+    if not gone or not new or len(gone) > 6 or len(new) > 6:
+        return done
+    funcs = [(q_, fn) for (q_, fn) in _functions_with_quals(tree, modname) if q_ in bodies]
+    seqs = ref.get('attr_seq') or {}
+    # which old name stood where a new name stands now: from the functions whose attribute sequence has the reference
+    # length and differs from it only at gone/new names
+    votes = {}
+    for q_, fn in funcs:
+        cur_seq = [n.attr for n in ast.walk(fn) if isinstance(n, ast.Attribute)]
+        ref_seq = seqs.get(q_)
+        if ref_seq is None or len(ref_seq) != len(cur_seq) or cur_seq == ref_seq:
+            continue
+        pairs = {(c, r) for c, r in zip(cur_seq, ref_seq) if c != r}
+        if all(c in new and r in gone for (c, r) in pairs):
+            for (c, r) in pairs:
+                votes.setdefault(c, set()).add(r)
+    mapping = {b: next(iter(a)) for b, a in votes.items() if len(a) == 1}
+    if len(set(mapping.values())) != len(mapping):
+        return done
+    # the whole mapping must give every function that mentions a renamed attribute the body it had (functions that
+    # changed in other ways too cannot confirm and are left out; each renamed attribute needs one that confirms)
+    confirmed = set()
+    for q_, fn in funcs:
+        mine = {n.attr for n in ast.walk(fn) if isinstance(n, ast.Attribute)} & set(mapping)
+        if not mine:
+            continue
+        f2 = copy.deepcopy(fn)
+        for n in ast.walk(f2):
+            if isinstance(n, ast.Attribute) and n.attr in mapping:
+                n.attr = mapping[n.attr]
+        if body_hash(f2) == bodies[q_]:
+            confirmed |= mine
+    mapping = {b: a for b, a in mapping.items() if b in confirmed}
+    if not mapping:
+        return done
+    for n in ast.walk(tree):
+        if isinstance(n, ast.Attribute) and n.attr in mapping:
+            n.attr = mapping[n.attr]
+        elif isinstance(n, ast.ClassDef):
+            # a class-level default of the same attribute
+            for st in n.body:
+                if isinstance(st, ast.Assign):
+                    for t in st.targets:
+                        if isinstance(t, ast.Name) and t.id in mapping:
+                            t.id = mapping[t.id]
+    for b, a in sorted(mapping.items()):
+        done.append('%s (read as %s)' % (b, a))
+    return done
+
+
 def restore_staticmethods(tree, modname, known):
     """a staticmethod of the reference tree that became a new module-level function, the class keeping
     `NAME = staticmethod(func)`: read as the staticmethod again, calls from the class's methods as self.NAME(...)"""
